@@ -63,11 +63,15 @@ def random_items(ctx, n, pools=False):
     for t in range(n):
         vg = gen.VGen(500000 + t * 5000)
         cfg = gen.rand_cfg(rng)
-        klass = rng.choice(["plain", "plain", "unordered", "bigvals", "bigkeys", "prefixes", "empty", "emptykey", "cutprobe", "sepcarry"])
+        klass = rng.choice(["plain", "plain", "unordered", "bigvals", "bigkeys", "prefixes", "empty", "emptykey", "cutprobe", "sepcarry", "lonely"])
         alpha = rng.choice([list(range(256)), gen.ALPHA6, [0x61, 0x62], [0x7f, 0x80, 0xff]])
         adds = []
         if klass == "empty":
             keys = []
+        elif klass == "lonely":
+            # the smallest entry there is (empty key, empty value: three bytes) alone in its block: as the whole table, or cut off by a
+            # next entry that does not fit beside it
+            keys = [b""] + ([] if rng.random() < 0.4 else [b"\x00", b"a"][:rng.choice([1, 2])])
         elif klass == "bigkeys":
             base = rng.choice([127, 128, 16383, 16384, 300])
             keys = sorted(set(bytes([rng.choice(alpha)]) * (base + rng.choice([-1, 0, 0, 1])) + gen.rand_key(rng, alpha, 2) for _ in range(rng.randint(1, 5))))
@@ -87,6 +91,8 @@ def random_items(ctx, n, pools=False):
                 vl = rng.choice([200, 300, 500])
             elif klass == "bigvals":
                 vl = rng.choice([0, 127, 128, 129, 256, 16383, 16384, 70000, 3000])
+            elif klass == "lonely":
+                vl = 0 if k == b"" else rng.choice([9000, 1100, 0])
             elif klass == "emptykey" and k == b"":
                 vl = rng.choice([0, 128, 256, 16384, 5])
             else:
